@@ -265,3 +265,9 @@ package client
 //@ func client.NewRpcMultiplexer
 //@   requires rw != nil
 //@   ensures[C13.constructed C01.constructed C14.constructed C20.constructed] result != nil && result.rw == rw
+
+// the multiplexer's reader goroutine: reads until the transport fails, then fails every waiting call
+//@ func client.NewRpcMultiplexer$1
+//@   nopanic[C13.nopanic C09.nopanic]
+//@   captures rm != nil && objinv(rm)
+//@   ensures[C09.read_failure_always_recorded] ncalls("call:client.(*RpcMultiplexer).closeError") == old(ncalls("call:client.(*RpcMultiplexer).closeError")) + 1
